@@ -18,7 +18,7 @@ from mc.partition import partition_oracles
 
 ID = "C14"
 RULE = ("states = (multiset of <=N respondents, assignment of numeric values from {none,-1,0,1,2.5} "
-        "to the 3 valued-dimension categories (all 125), subtotal config); non-trivial = at least "
+        "to the 3 valued-dimension categories (all 125, plus five with values that are not binary fractions), subtotal config); non-trivial = at least "
         "two respondents with different numeric values in one vector; distinct = distinct "
         "(assignment, scale statistics)")
 ASSUMPTIONS = ["median asserted for integer weights only (expanded-respondent median)",
@@ -28,6 +28,9 @@ TRUSTED = ["numpy", "python statistics.median"]
 NANF = float("nan")
 VALUES = (None, -1, 0, 1, 2.5)
 ASSIGN = list(itertools.product(VALUES, repeat=3))
+# values that are not exact binary fractions (round-off in the second moment must not surface as a negative
+# variance / NaN deviation when all valued respondents share one value)
+ASSIGN += [(0.1, 0.1, 0.1), (0.1, 1.1, 2.3), (2.3, None, 0.1), (1.1, 1.1, None), (0.7, 0.1, 0.2)]
 
 V3 = S.cat("v", 3, "mid")        # the valued dimension (values substituted per state)
 G2 = S.cat("g", 2, "first")
@@ -43,7 +46,12 @@ BASES = {
     "cols_stats_val_x_mr": ([V3, M2], [("cat", 0), ("mr", 1)], 0, (1,), [{}], 2, 2),
     "rows_stats_mr_x_val": ([M2, V3], [("mr", 0), ("cat", 1)], 1, (1,), [{}], 2, 2),
     "strand_val": ([V3], [("cat", 0)], 0, (1, 2), [{}, {"rows": vs}], 3, 5),
+    # weights 7 and 9 with the fractional value assignments only: counts at which a second moment computed by
+    # the expanded square cancels to a negative residue
+    "rows_stats_fracvals_w7_9": ([G2, V3], [("cat", 0), ("cat", 1)], 1, (7, 9), [{}], 2, 3),
+    "cols_stats_fracvals_w7_9": ([V3, G2], [("cat", 0), ("cat", 1)], 0, (7, 9), [{}], 2, 3),
 }
+N_EXACT = len(list(itertools.product(VALUES, repeat=3)))
 PROFILES = {}
 SCHEMAS = {}
 for _n, (_vars, _dims, _vi, _w, _cfgs, _q, _t) in BASES.items():
@@ -59,10 +67,10 @@ def spaces(tier):
         n = q if tier == "quick" else t
         npf = len(PROFILES[name])
 
-        def level(k, npf=npf, ncf=len(cfgs)):
+        def level(k, npf=npf, ncf=len(cfgs), name=name):
             def gen():
                 for ms in multisets(npf, k):
-                    for a in range(len(ASSIGN)):
+                    for a in (range(N_EXACT, len(ASSIGN)) if "fracvals" in name else range(len(ASSIGN))):
                         for c in range(ncf):
                             yield (ms, a, c)
             return gen
